@@ -166,10 +166,18 @@ Definition cls_abstract (F : family) (c : str) : bool :=
 (* resolve_class_path_by_name: names without "." are looked up among the non-abstract subclasses
    of the declared type (get_all_subclass_paths); one hit -> its path, several -> ValueError,
    none -> the name is left as it is (and then fails to import). *)
+(* is_private(class_path): "._" in class_path.  A private class (or a class in a private module) is not listed
+   by get_all_subclass_paths - its subclasses still are. *)
+Fixpoint is_private (s : str) : bool :=
+  match s with
+  | a :: ((b :: _) as s') => (N.eqb a dot && N.eqb b 95) || is_private s'
+  | _ => false
+  end.
+
 Definition resolve_name (F : family) (base nm : str) : res str :=
   if has_dot nm then Ok nm
   else match filter (fun k => str_eqb (c_name k) nm && is_subclass F (c_name k) base
-                                && negb (c_abstract k)) (fam_classes F) with
+                                && negb (c_abstract k) && negb (is_private (path_of F (c_name k)))) (fam_classes F) with
        | [] => Ok nm
        | [k] => Ok (path_of F (c_name k))
        | _ => Err Reject
